@@ -59,7 +59,17 @@ SQ(s) == "<sq>" \o s \o "<sq>"
 Nums == {"0", "7", "42", "1_000", "1234567", "12_34_56_78", "0xFf", "0XAB_cd", "0xdeadBEEF0", "0x_1f",
          "0b1010_1", "0B11", "0x0", "256"}
 NumsSmall == {"7", "1_000", "0XAB_cd", "0b1010_1"}
-TheNums == IF Size >= 2 THEN Nums ELSE NumsSmall
+\* every radix prefix (in both cases) with every digit count 1..13: the renderer groups digits in fours (hexadecimal,
+\* binary) or sixes (decimal) counted from the right, so every residue of both group lengths occurs
+DecD == <<"1", "2", "3", "4", "5", "6", "7", "8", "9", "0", "1", "2", "3">>
+HexD == <<"9", "a", "B", "0", "c", "D", "e", "F", "1", "2", "3", "4", "5">>
+BinD == <<"1", "0", "1", "1", "0", "1", "0", "0", "1", "1", "1", "0", "1">>
+RECURSIVE CatN(_, _)
+CatN(ds, n) == IF n = 0 THEN "" ELSE CatN(ds, n - 1) \o ds[n]
+SysNums == {CatN(DecD, n) : n \in 1..13}
+           \cup {pre \o CatN(HexD, n) : pre \in {"0x", "0X"}, n \in 1..13}
+           \cup {pre \o CatN(BinD, n) : pre \in {"0b", "0B"}, n \in 1..13}
+TheNums == (IF Size >= 2 THEN Nums ELSE NumsSmall) \cup SysNums
 
 WordOps == {"not", "and", "or", "as"}
 TypeWords == {"array", "roarray", "slice", "roslice", "table", "rotable", "ptr", "nptr"}
